@@ -102,6 +102,9 @@ func depDescriptor() *descriptorpb.FileDescriptorProto {
 	}
 }
 
+// c19NamesFrom, when set, lends its service names to the next generated file.
+var c19NamesFrom *c19File
+
 // genProtoFile makes file number idx with 1..4 services.
 func genProtoFile(r *rand.Rand, idx int, dir, pkgName string) *c19File {
 	f := &c19File{Name: fmt.Sprintf("%s/f%d.proto", dir, idx), Dir: dir, PkgName: pkgName}
@@ -111,6 +114,9 @@ func genProtoFile(r *rand.Rand, idx int, dir, pkgName string) *c19File {
 	}
 	if r.Intn(6) == 0 {
 		f.Proto = "" // a file without a package statement: full names have no qualifier
+	}
+	if c19NamesFrom != nil && f.Proto == c19NamesFrom.Proto {
+		f.Proto = fmt.Sprintf("ns%d", idx) // namesakes live in different proto packages (else the input is invalid)
 	}
 	qual := func(name string) string {
 		if f.Proto == "" {
@@ -157,6 +163,11 @@ func genProtoFile(r *rand.Rand, idx int, dir, pkgName string) *c19File {
 	r.Shuffle(len(names), func(a, b int) { names[a], names[b] = names[b], names[a] })
 	for s := 0; s < nsvc; s++ {
 		sname := fmt.Sprintf("%s%d", names[s], idx)
+		if c19NamesFrom != nil && s < len(c19NamesFrom.Services) {
+			// the same simple service names as another file of the same run, in another proto and Go package
+			// (v1/v2 style): each file's stubs use its own full names
+			sname = c19NamesFrom.Services[s].Name
+		}
 		svc := c19Service{Name: sname, GoName: camelCase(sname), FullName: qual(sname)}
 		sd := &descriptorpb.ServiceDescriptorProto{Name: proto.String(sname)}
 		nm := r.Intn(13)
@@ -561,8 +572,10 @@ func checkC19(e *core.Env) {
 				dir, pkg := dirA, "pk"+fmt.Sprint(q)
 				if k == 2 {
 					dir, pkg = dirA+"/sub", "subpkg"
+					c19NamesFrom = files[0]
 				}
 				files = append(files, genProtoFile(r, idx, dir, pkg))
+				c19NamesFrom = nil
 			}
 			req := &pluginpb.CodeGeneratorRequest{Parameter: proto.String(opt.param), ProtoFile: []*descriptorpb.FileDescriptorProto{depDescriptor()}}
 			for _, f := range files {
